@@ -536,7 +536,8 @@ def run_pois_stream(ctx, base):
                  sample=samp('B', {'stream': 'B', 'fn': c['fn'], 'p0': c['p0'], 'eps': c['eps'], 'multinom': c['multinom'], 'log': c['log'],
                                    'nested': c['nested'], 'shape': c['shape'], 'Bs': c['Bs'], 'data': c['data'], 'value': r.get('val'),
                                    'inner_H': r['inner'][0]['H']}))
-        cf = closed_forms(c, r, keep)
+        with np.errstate(all='ignore'):          # an indefinite exact information matrix gives NaN uncertainties: handled below
+            cf = closed_forms(c, r, keep)
         # ---- glue predicates
         glue = []
         if c['multinom']:
@@ -700,7 +701,7 @@ def run_pois_stream(ctx, base):
                 report(ctx, 'B-L2', 'Godambe.%s: %s is not what the model computes from get_godambe\'s (H, J, cU)' % (c['fn'], what),
                               data={'stream': 'pois', 'case': c, 'impl': byid[c['id']], 'coq': rr})
 
-C_ORDER2 = 40.0      # |stat(eps) - closed| <= C eps^2 (x condition number for the statistics); observed <= 6 eps^2 on the unchanged tree
+C_ORDER2 = 60.0      # |stat(eps) - closed| <= C eps^2 (x condition number for the statistics); observed <= 12 eps^2 on the unchanged tree
 C_MODEL = 16
 
 # ------------------------------------------------------------------------------------------------------
